@@ -162,6 +162,10 @@ def type_rejections(report):
         ("f(uint64,uint64)void", lambda: [abi.Uint64()], "too few arguments"),
         ("f(byte[2])void", lambda: [abi.StaticArrayTypeSpec(abi.ByteTypeSpec(), 3).new_instance()], "byte[3] for byte[2]"),
     ]
+    # a raw uint64 expression is never the ARC-4 encoding of anything: every plain parameter type must refuse it
+    for t in ("bool", "byte", "uint8", "uint16", "uint32", "uint64", "uint128", "address", "string", "byte[]", "byte[4]", "uint64[2]", "uint16[]", "(uint8,uint8)", "(uint64)"):
+        probes.append((f"f({t})void", lambda: [pt.Int(5)], f"uint64 Expr for {t}"))
+        probes.append((f"f(uint64,{t})void", lambda: [abi.Uint64(), pt.Int(2) * pt.Int(3)], f"uint64 Expr for {t} (second parameter)"))
     bad = []
     for sig, mk, what in probes:
         try:
